@@ -28,7 +28,7 @@ from ..engine.report import AnalysisError, Run
 from ..engine.resolver import FuncInfo, Program, body_walk, parent_map, walk_no_nested
 from ..engine.terms import Poly
 from ..engine.util import find_calls, method_call, node_writes, reaching_defs, u, writes_of
-from ._c18_util import NONE, Leaf, SymExec, cneg, div_atom, div_linear, fmt, interval
+from ._c18_util import NONE, Leaf, SymExec, cneg, div_atom, div_linear, fmt, fuse_generator_loop, interval
 
 MC = "timeseries.battery_pool._metric_calculator"
 METH = "timeseries.battery_pool._methods"
@@ -63,6 +63,14 @@ class Calc:
                                   for n in body_walk(fn.node)):
             raise AnalysisError(f"{fn.qual}: aggregation loop not found")
         self.loop: ast.For = body[loops[0]]  # type: ignore[assignment]
+        self.sym = SymExec(prog, fn, call_hook=self._call_hook)
+        if self.loop.orelse:
+            raise AnalysisError(f"{fn.qual}: unsupported loop shape")
+        for _ in range(3):  # a loop over a private generator is read together with the generator's loop
+            fused = fuse_generator_loop(self.sym, self.loop)
+            if fused is self.loop:
+                break
+            self.loop = fused
         if self.loop.orelse or not isinstance(self.loop.target, ast.Name):
             raise AnalysisError(f"{fn.qual}: unsupported loop shape")
         if len(fn.params) < 3:
@@ -70,7 +78,6 @@ class Calc:
         self.md, self.wb = fn.params[1], fn.params[2]
         self.data_atoms = {f"{self.md}[BID]", f"{self.md}.get(BID)"}
         self.roles: dict[str, str] = {}  # role atom -> data atom it was read from
-        self.sym = SymExec(prog, fn, call_hook=self._call_hook)
         # ---- before the loop: straight-line initialisation
         pre = self.sym.run(body[:loops[0]], {})
         if len(pre) != 1 or pre[0].kind != "fall" or pre[0].facts:
@@ -413,32 +420,53 @@ def check_excl_calc(run: Run, calc: Calc) -> None:
 
 
 # ---------------------------------------------------------------------------------------------
-def check_fetcher(run: Run, prog: Program) -> None:  # noqa: C901
-    """Every ComponentMetricsData built by fetch_next holds only values v with `not isnan(v)`."""
+def check_fetcher(run: Run, prog: Program) -> None:
+    """Every ComponentMetricsData built by fetch_next holds exactly the requested values v with `not isnan(v)`."""
     ff = prog.func(f"{FETCH}:LatestMetricsFetcher.fetch_next")
     run.analysed(ff.qual)
     node = inline_helpers(prog, ff)
-    cfg = CFG(node, ff.file)
-    ctor_params = ["component_id", "timestamp", "metrics"]
     built = [c for c in find_calls(node, lambda c: u(c.func) == "ComponentMetricsData")]
     if not built:
         raise AnalysisError(f"{ff.qual}: no ComponentMetricsData is built")
+    sites = []
+    ok = True
+    for c in built:
+        m = positional(c, ["component_id", "timestamp", "metrics"]).get("metrics")
+        if m is None:
+            ok = False
+        else:
+            sites.append((c, m))
+    ok2, kept, n_dicts = _metric_dicts(run, prog, ff, node, sites)
+    ok = ok and ok2
+    run.check(ok and n_dicts >= 1, "C18.EXCL", ff.qual, "metrics[mid] = value only if not isnan(value)",
+              "NaN metric values are stored (they would count as present)", node=ff.node, file=ff.file)
+    run.check(kept and n_dicts >= 1, "C18.EXCL", ff.qual, "every requested metric that is not NaN is kept",
+              "the record handed to the calculators does not hold, for every requested metric id, the value "
+              "extracted from the component data: batteries with complete data would count as incomplete "
+              "(and the pool result would be None although batteries qualify)", node=ff.node, file=ff.file)
+
+
+def _metric_dicts(run: Run, prog: Program, fn: FuncInfo, node: Any, sites: list[tuple[ast.AST, ast.AST]],  # noqa: C901
+                  depth: int = 2) -> tuple[bool, bool, int]:
+    """(only non-NaN values stored, every requested non-NaN value stored, number of non-empty dicts) for
+    the dict expressions `sites` = [(node of `node`'s tree that uses it, expression)]."""
+    cfg = CFG(node, fn.file)
+    parents = parent_map(node)
 
     def nan_test(t: ast.AST, value: ast.AST) -> str | None:
         """Label of the edge of test `t` on which `value` is known not to be NaN."""
         neg = False
         while isinstance(t, ast.UnaryOp) and isinstance(t.op, ast.Not):
             neg, t = not neg, t.operand
-        if isinstance(t, ast.Call) and u(t.func) in ("math.isnan", "isnan") and len(t.args) == 1 \
-                and not t.keywords and u(t.args[0]) == u(value):
-            return "true" if neg else "false"
+        if isinstance(t, ast.Call) and u(t.func) in ("math.isnan", "isnan") and len(t.args) == 1 and not t.keywords:
+            a = t.args[0]
+            if isinstance(a, ast.NamedExpr):  # isnan(v := …) tests the value bound to v
+                a = a.target
+            if u(a) == u(value):
+                return "true" if neg else "false"
         return None
 
-    ok = True
-    kept = True
-    parents = parent_map(node)
-
-    def extracted(e: ast.AST, key: ast.AST) -> bool:
+    def extracted(e: ast.AST | None, key: ast.AST) -> bool:
         """`e` is self._extract_metric(…) of the metric id `key`."""
         return isinstance(e, ast.Call) and method_call(e, "self", "_extract_metric") and any(
             u(a) == u(key) for a in list(e.args) + [k.value for k in e.keywords])
@@ -454,7 +482,12 @@ def check_fetcher(run: Run, prog: Program) -> None:  # noqa: C901
             v = _assigned_value(cfg.nodes[ds[0]].ast) if len(ds) == 1 else None
             if isinstance(v, (ast.DictComp, ast.ListComp, ast.SetComp)) and len(v.generators) == 1:
                 return over_requested(v.generators[0].iter, ds[0], depth - 1)
+            if isinstance(v, ast.Attribute):
+                return over_requested(v, ds[0], depth - 1)
         return False
+
+    def comp_filters(dc: ast.DictComp) -> bool:
+        return any(nan_test(i, dc.value) == "true" for g in dc.generators for i in g.ifs)
 
     def comp_keeps(dc: ast.DictComp, at: int) -> bool:
         if len(dc.generators) != 1:
@@ -463,6 +496,11 @@ def check_fetcher(run: Run, prog: Program) -> None:  # noqa: C901
         if not over_requested(g.iter, at):
             return False
         if extracted(dc.value, dc.key):
+            return True
+        # the value is bound by an assignment expression in the filter: … if not isnan(v := extract(k))
+        if isinstance(dc.value, ast.Name) and any(
+                isinstance(n, ast.NamedExpr) and n.target.id == dc.value.id and extracted(n.value, dc.key)
+                for i in g.ifs for n in ast.walk(i)):
             return True
         # {k: v for k, v in raw.items() …} with raw = {k: extract(k) for k in self._metrics}
         src = g.iter.func.value if isinstance(g.iter, ast.Call) and isinstance(g.iter.func, ast.Attribute) else None
@@ -473,41 +511,61 @@ def check_fetcher(run: Run, prog: Program) -> None:  # noqa: C901
             return isinstance(v, ast.DictComp) and extracted(v.value, v.key)
         return False
 
-    n_dicts = 0
-    for c in built:
-        m = positional(c, ctor_params).get("metrics")
-        if m is None:
-            ok = False
-            continue
-        if isinstance(m, ast.Dict) and not m.keys:
+    def empty_dict(val: ast.AST | None) -> bool:
+        return (isinstance(val, ast.Dict) and not val.keys) or (
+            isinstance(val, ast.Call) and u(val.func) == "dict" and not val.args and not val.keywords)
+
+    ok, kept, n_dicts = True, True, 0
+    for anchor, m in sites:
+        at_nodes = set(cfg.node_containing(anchor)) or set(cfg.nodes_of(anchor))
+        if empty_dict(m):
             continue  # no metric at all: the battery counts as incomplete
         if isinstance(m, ast.DictComp):
             n_dicts += 1
-            ok = ok and any(nan_test(i, m.value) == "true" for g in m.generators for i in g.ifs)
-            kept = kept and all(comp_keeps(m, a) for a in cfg.node_containing(c))
+            ok = ok and comp_filters(m)
+            kept = kept and bool(at_nodes) and all(comp_keeps(m, a) for a in at_nodes)
+            continue
+        if isinstance(m, ast.Call) and depth > 0 and isinstance(m.func, ast.Attribute) and u(m.func.value) == "self" \
+                and fn.cls is not None and prog.resolve_method(fn.cls, m.func.attr) is not None:
+            # built by a private method that could not be spliced: decide it on that method's returns
+            h = prog.resolve_method(fn.cls, m.func.attr)
+            assert h is not None
+            run.analysed(h.qual)
+            hnode = inline_helpers(prog, h)
+            rets = [(r, r.value) for r in body_walk(hnode) if isinstance(r, ast.Return) and r.value is not None]
+            o2, k2, n2 = _metric_dicts(run, prog, h, hnode, rets, depth - 1)
+            ok, kept, n_dicts = ok and o2 and bool(rets), kept and k2, n_dicts + n2
             continue
         if not isinstance(m, ast.Name):
             ok = False
             continue
         n_dicts += 1
-        at = cfg.node_containing(c)
-        defs = {d for a in at for d in reaching_defs(cfg, a, m.id)}
-        for d in defs:
-            s = cfg.nodes[d].ast
-            val = s.value if isinstance(s, (ast.Assign, ast.AnnAssign)) else None
+        # the dict object: follow `a = b` renamings back to where it is created
+        names = [m.id]
+        while True:
+            defs = {d for a in at_nodes for d in reaching_defs(cfg, a, names[-1])}
+            vals = [_assigned_value(cfg.nodes[d].ast) for d in defs]
+            if len(defs) == 1 and isinstance(vals[0], ast.Name) and vals[0].id not in names:
+                names.append(vals[0].id)
+                at_nodes = set(defs)
+            else:
+                break
+        for d, val in zip(defs, vals):
             if isinstance(val, ast.DictComp):
-                ok = ok and any(nan_test(i, val.value) == "true" for g in val.generators for i in g.ifs)
+                ok = ok and comp_filters(val)
                 kept = kept and comp_keeps(val, d)
-            elif not ((isinstance(val, ast.Dict) and not val.keys) or (
-                    isinstance(val, ast.Call) and u(val.func) == "dict" and not val.args and not val.keywords)):
+            elif not empty_dict(val):
                 ok = False
+        if not defs:
+            ok = False
         stores = [n for n in cfg.nodes if n.kind == "stmt" and any(
-            isinstance(w, ast.Subscript) and u(w.value) == m.id for w in node_writes(cfg, n.id))]
+            isinstance(w, ast.Subscript) and u(w.value) in names for w in node_writes(cfg, n.id))]
         other = [n for n in cfg.nodes if n.ast is not None and n.kind == "stmt" and any(
-            method_call(k, m.id, a) for a in ("update", "setdefault", "__setitem__") for k in find_calls(n.ast, lambda _c: True))]
+            method_call(k, nm, a) for nm in names for a in ("update", "setdefault", "__setitem__")
+            for k in find_calls(n.ast, lambda _c: True))]
         if other:
             ok = False
-        if not any(isinstance(_assigned_value(cfg.nodes[d].ast), ast.DictComp) for d in defs):
+        if not any(isinstance(v, ast.DictComp) for v in vals):
             # filled by stores: one of them keeps, for every requested metric id, the extracted value
             def keeps(st: Any) -> bool:
                 s = st.ast
@@ -519,7 +577,7 @@ def check_fetcher(run: Run, prog: Program) -> None:  # noqa: C901
                     loop = parents.get(loop)
                 if loop is None or not over_requested(loop.iter, st.id) or cfg.path(cfg.entry, [st.id]) is None:
                     return False
-                v = s.value
+                v: ast.AST | None = s.value
                 if isinstance(v, ast.Name):
                     ds = reaching_defs(cfg, st.id, v.id)
                     v = _assigned_value(cfg.nodes[ds[0]].ast) if len(ds) == 1 else None
@@ -528,7 +586,7 @@ def check_fetcher(run: Run, prog: Program) -> None:  # noqa: C901
             kept = kept and any(keeps(st) for st in stores)
         for st in stores:
             s = st.ast
-            if not isinstance(s, ast.Assign) or len(s.targets) != 1:
+            if not isinstance(s, ast.Assign) or len(s.targets) != 1 or not isinstance(s.value, ast.Name):
                 ok = False
                 continue
             safe = {(t.id, lab) for t in cfg.nodes if t.kind == "test" and t.ast is not None
@@ -540,20 +598,12 @@ def check_fetcher(run: Run, prog: Program) -> None:  # noqa: C901
             if cfg.path(cfg.entry, [st.id], edge_ok=lambda a, _b, lab: (a, lab) not in safe) is not None:
                 ok = False
             # … and the tested value is not rebound between the test and the store
-            if isinstance(s.value, ast.Name):
-                after = [b for (t, lab) in safe for b, l2 in cfg.succ[t] if l2 == lab]
-                writers = [n.id for n in cfg.nodes if n.id != st.id and any(u(w) == s.value.id for w in node_writes(cfg, n.id))]
-                if any(cfg.path(a, [w], avoid=[st.id]) is not None and cfg.path(w, [st.id], avoid=[t for t, _ in safe]) is not None
-                       for a in after for w in writers):
-                    ok = False
-            elif not isinstance(s.value, ast.Name):
+            after = [b for (t, lab) in safe for b, l2 in cfg.succ[t] if l2 == lab]
+            writers = [n.id for n in cfg.nodes if n.id != st.id and any(u(w) == s.value.id for w in node_writes(cfg, n.id))]
+            if any(cfg.path(a, [w], avoid=[st.id]) is not None and cfg.path(w, [st.id], avoid=[t for t, _ in safe]) is not None
+                   for a in after for w in writers):
                 ok = False
-    run.check(ok and n_dicts >= 1, "C18.EXCL", ff.qual, "metrics[mid] = value only if not isnan(value)",
-              "NaN metric values are stored (they would count as present)", node=ff.node, file=ff.file)
-    run.check(kept and n_dicts >= 1, "C18.EXCL", ff.qual, "every requested metric that is not NaN is kept",
-              "the record handed to the calculators does not hold, for every requested metric id, the value "
-              "extracted from the component data: batteries with complete data would count as incomplete "
-              "(and the pool result would be None although batteries qualify)", node=ff.node, file=ff.file)
+    return ok, kept, n_dicts
 
 
 # ---------------------------------------------------------------------------------------------
@@ -659,17 +709,29 @@ def check_working_set(run: Run, prog: Program) -> None:  # noqa: C901
                   "replaced (it is then always empty and stale cached metrics survive)", node=upd.node, file=upd.file)
         if ok:
             loop: ast.For = loops[0][0].ast  # type: ignore[assignment]
-            bv = u(loop.target)
-            CM = "self._cached_metrics"
+            up = parent_map(unode)
 
-            def pops(scope: list[ast.stmt], key: str) -> bool:
-                return any(method_call(c, CM, "pop") and len(c.args) == 2 and not c.keywords and u(c.args[0]) == key
-                           for s in scope for c in find_calls(s, lambda _c: True))
+            def own_loop(n: ast.AST) -> ast.AST | None:
+                cur = up.get(n)
+                while cur is not None and not isinstance(cur, (ast.For, ast.While)):
+                    cur = up.get(cur)
+                return cur
 
-            own = [s for s in loop.body if not isinstance(s, ast.For)]
-            inner = [n for s in loop.body for n in walk_no_nested(s) if isinstance(n, ast.For)
-                     and u(n.iter) in (f"self._bat_inv_map[{bv}]",) and isinstance(n.target, ast.Name)]
-            ok = isinstance(loop.target, ast.Name) and pops(own, bv) and len(inner) == 1 and pops(inner[0].body, u(inner[0].target))
+            def is_state(e: ast.AST, attr: str) -> bool:
+                """`e` is self.<attr>, possibly through local aliases."""
+                return any(st.term(nid, e) == attr for nid in cfg.node_containing(e))
+
+            def pops(scope: ast.For) -> bool:
+                """The loop itself (not a nested one) pops its own variable from the metrics cache."""
+                return isinstance(scope.target, ast.Name) and any(
+                    isinstance(c.func, ast.Attribute) and c.func.attr == "pop" and len(c.args) == 2 and not c.keywords
+                    and u(c.args[0]) == scope.target.id and own_loop(c) is scope and is_state(c.func.value, "self._cached_metrics")
+                    for s_ in scope.body for c in find_calls(s_, lambda _c: True))
+
+            inner = [n for s_ in loop.body for n in walk_no_nested(s_) if isinstance(n, ast.For)
+                     and isinstance(n.iter, ast.Subscript) and u(n.iter.slice) == u(loop.target)
+                     and is_state(n.iter.value, "self._bat_inv_map")]
+            ok = pops(loop) and len(inner) == 1 and pops(inner[0])
             run.check(ok, "C18.EXCL", upd.qual, "evict cached metrics of the stopped batteries and their inverters",
                       "cached metrics of batteries that stopped working are not evicted", node=upd.node, file=upd.file)
         # … and it is replaced on every path, except where it is known to be equal to the new set
